@@ -542,6 +542,7 @@ func orchestrate(args []string) {
 	// confirm violations by replaying each 5x in fresh processes
 	var confirmed []Violation
 	var paths []string
+	unconfirmed := 0
 	for _, v := range total.Violations {
 		p := writeReplay(v)
 		ok := 0
@@ -550,16 +551,20 @@ func orchestrate(args []string) {
 				ok++
 			}
 		}
-		if ok == 0 && v.Class != "process-death" && v.Class != "hang" {
-			fmt.Fprintf(os.Stderr, "verif: %s: violation %s/%s did not reproduce in a fresh process (0/5): harness is flaky, no verdict\n  replay=%s\n", id, v.Oracle, v.Class, p)
-			os.Exit(2)
-		}
 		if ok < 5 && v.Class != "process-death" && v.Class != "hang" {
-			fmt.Fprintf(os.Stderr, "verif: %s: violation reproduced only %d/5 times: %s\n", id, ok, p)
-			os.Exit(2)
+			// not believed: a discrepancy that does not fail every time in a fresh process is set aside; if nothing
+			// else is confirmed the run ends without a verdict (exit 2), never with an alarm
+			fmt.Fprintf(os.Stderr, "verif: %s: discrepancy %s/%s reproduced only %d/5 times in a fresh process: set aside (replay=%s)\n", id, v.Oracle, v.Class, ok, p)
+			unconfirmed++
+			os.Remove(p)
+			continue
 		}
 		confirmed = append(confirmed, v)
 		paths = append(paths, p)
+	}
+	if unconfirmed > 0 && len(confirmed) == 0 {
+		fmt.Fprintf(os.Stderr, "verif: %s: %d discrepancies seen by the workers, none reproducible in a fresh process: harness is flaky, no verdict\n", id, unconfirmed)
+		os.Exit(2)
 	}
 	// vacuity
 	if def.MinOutcomes > 0 && len(total.Outcomes) < def.MinOutcomes && total.Exhaustive {
